@@ -39,7 +39,7 @@ def run(ctx):
     cl.check_driver()
     thorough = ctx.tier == "thorough"
     # flexible classes are where the pattern matters; take all of them in thorough, rotate in quick
-    idxs = codec.choose_classes(len(cl), rng, None if thorough else 450, ctx.seed + 3)
+    idxs = codec.choose_classes(len(cl), rng, None if thorough else 450, ctx.seed + 3, cl)
     per = 12 if thorough else 5
     insts = codec.gen_instances(cl, idxs, per, rng, big_strings=False)
     lines, meta = [], []
@@ -48,6 +48,39 @@ def run(ctx):
         u = " ".join(f"{t} {values.hex_tok(p)}" for t, p in unk)
         lines.append(f"foreign {i} {1 if sd else 0} {len(unk)} {u} {values.render(a)}".replace("  ", " "))
         meta.append((i, a, sd, unk))
+    # absent tagged fields: a conforming peer omits a tagged field that has its default value, whether
+    # the default is explicit or implied by the type (members of a tagged structure keep their own
+    # defaults).  The defaults come from the model (`fields`), never from the code under test.
+    import dataclasses
+    tagged_cls = [i for i in range(len(cl)) if any("tag" in f.metadata for f in dataclasses.fields(cl.cls(i)))]
+    fl = driver.run_parallel([f"fields {i}" for i in tagged_cls])
+    g2 = gen.Gen(rng, cl.codes, big_strings=False, tzaware_ms=True)
+    absent = 0
+    for i, r in zip(tagged_cls, fl):
+        if not r.startswith("ok"):
+            continue
+        descr = r.split()[1:]
+        c = cl.cls(i)
+        implicit = any("tag" in f.metadata and f.default is dataclasses.MISSING for f in dataclasses.fields(c))
+        if not (implicit or thorough or rng.random() < 0.25):
+            continue
+        a = g2.instance(c, budget=5, default_prob=0.3)
+        vals = list(a[1])
+        okd = True
+        for j, d in enumerate(descr):
+            dv = d.split(":", 3)[3]
+            if dv == "-":
+                continue
+            if dv.startswith("ERR"):
+                okd = False
+                break
+            vals[j] = values.parse_str(dv.replace(",", " "))
+        if not okd:
+            continue
+        a = ("E", vals)
+        lines.append(f"foreign {i} 0 0 {values.render(a)}")
+        meta.append((i, a, False, []))
+        absent += 1
     replies = driver.run_parallel(lines, jobs=14)
     fails, disagreements = [], []
     dec_lines, dec_meta = [], []
@@ -79,10 +112,10 @@ def run(ctx):
         if not pyside.same_outcome(py, lr):
             disagreements.append({"class": cl.keys[i], "bytes": d.hex()[:2000], "python": py[:500], "model": lr[:500]})
     ctx.coverage.update({
-        "evaluations": len(insts), "distinct_nontrivial": len(nontrivial),
+        "evaluations": len(meta), "distinct_nontrivial": len(nontrivial),
         "rule": "case = (class, wire value, presence pattern); bytes produced by Spec.encForeign in Lean, fed to the "
                 "real reader; non-trivial iff the class is flexible and the pattern sends defaults or unknown tags",
-        "classes_covered": len(idxs), "encoding_kinds": kinds, "pattern_kinds": pat_kinds,
+        "classes_covered": len(idxs), "all_tagged_fields_absent_cases": absent, "encoding_kinds": kinds, "pattern_kinds": pat_kinds,
         "disagreements": len(disagreements), "property_failures_on_code": len(fails),
         "samples": [{"class": cl.keys[i], "send_defaults": sd, "unknown_tags": [t for t, _ in unk]} for i, a, sd, unk in meta[:5]],
     })
